@@ -184,15 +184,12 @@ CHECKS.update({
                      "beta and gammaprod as products of Real.Gamma, harmonic, superfactorial; gammaprod's zero/infinite/finite decision equals the pole count of Real.Gamma; a checker verdict is a theorem |y - ref| <= 2^(k-p)|ref| or its negation. "
                      "The real functions are run at half-integer/integer/rational arguments (precisions 10-2000, real and complex-typed) and each output, read exactly, is decided.",
                 note=TB + "Only the sub-family with closed forms in Mathlib is decided (generic real/complex arguments, digamma/polygamma are counted as outside); the series code of mpf_gamma is not modelled."),
-    "C19": dict(category="translation_validation", technique="closed-form references proved in Lean against Mathlib's riemannZeta / bernoulli polynomials / HasSum of the defining series + Lean-verified checker + sampled runs",
-                text="Theorems: the reference equals riemannZeta s for s <= 0 and even s >= 2 (pole iff s = 1), HasSum of the Hurwitz series at even exponents and integer a >= 1, Polynomial.bernoulli at the point, HasSum of the polylog series "
-                     "for s = 1, s = -n (|z| < 1) and s = 2m at z = 1. zeta/altzeta/hurwitz/bernpoly/eulerpoly/polylog are run on these arguments and decided exactly.",
-                note=TB + "Odd and non-integer s, polylog outside |z| < 1, lerchphi, primezeta, zeta derivatives are outside the decided sub-family (counted)."),
-    "C22": dict(category="translation_validation", technique="terminating hypergeometric sums and orthogonal-polynomial recurrences as exact rational references proved in Lean (Chebyshev against Mathlib) + models of hypsum's pole test and parameter classification (bit-exact) + verified checker",
-                text="Theorems: for a terminating pFq the finite Pochhammer sum is the value and a pole occurs iff a denominator parameter -m has m < n; chebyt/chebyu = Mathlib's Chebyshev T/U; legendre/hermite/laguerre/gegenbauer/jacobi equal their "
-                     "three-term recurrences; hypsum raises exactly when an integer denominator c <= 0 exceeds every integer numerator cc <= 0; convert_param's Z/Q/R/C classification. hyper/hyp2f1/hyp1f1/hyp2f0 and the polynomial families are run on terminating "
-                     "cases and decided exactly.",
-                note=TB + "Non-terminating series (the bulk of the property's quantifier) are not decided: no verified evaluator for 2F1 etc. exists in Mathlib."),
+    "C19": dict(category='translation_validation', technique="closed-form references proved in Lean against Mathlib's riemannZeta / bernoulli polynomials / HasSum of the defining series + Lean-verified checker + sampled runs",
+                text='Theorems: the reference equals riemannZeta s for s <= 0 and even s >= 2 (pole iff s = 1), HasSum of the Hurwitz series at even exponents and integer a >= 1, Polynomial.bernoulli at the point, HasSum of the polylog series for s = 1, s = -n (|z| < 1) and s = 2m at z = 1. zeta/altzeta/hurwitz/bernpoly/eulerpoly/polylog are run on these arguments and decided exactly. Props/C19b: zeta(n)/altzeta(n) at every integer n >= 2 (odd included) proportional to the precision are decided against the direct sum with the proved tail bound sum_{k<=N} k^-n <= zeta(n) <= sum + N^(1-n) (= riemannZeta n); n is generated around every precision-proportional switch-over literal of mpf_zeta_int (read with ast).',
+                note="Trusted base: Lean 4.33 kernel; axioms propext/Classical.choice/Quot.sound only (audited by #print axioms on every run, no native_decide/bv_decide/sorry); Mathlib v4.33; the hand-written Lean model of the code, tied to /repo's working tree on every run by a bit-exact correspondence run through the compiled model driver; bitcount/trailing/isqrt are modelled by their mathematical meaning and tied by correspondence only; the Python harness. Small odd s (direct sum needs more than 2^13 terms) and non-integer s, polylog outside |z| < 1, lerchphi, primezeta, zeta derivatives are outside the decided sub-family (counted)."),
+    "C22": dict(category='translation_validation', technique="terminating hypergeometric sums and orthogonal-polynomial recurrences as exact rational references proved in Lean (Chebyshev against Mathlib) + models of hypsum's pole test and parameter classification (bit-exact) + verified checker",
+                text="Theorems: for a terminating pFq the finite Pochhammer sum is the value and a pole occurs iff a denominator parameter -m has m < n; chebyt/chebyu = Mathlib's Chebyshev T/U; legendre/hermite/laguerre/gegenbauer/jacobi equal their three-term recurrences; hypsum raises exactly when an integer denominator c <= 0 exceeds every integer numerator cc <= 0; convert_param's Z/Q/R/C classification. hyper/hyp2f1/hyp1f1/hyp2f0 and the polynomial families are run on terminating cases and decided exactly. Props/C22b: NON-terminating pFq series at rational parameters (p <= q: any dyadic z, in particular large negative z with heavy cancellation; p = q+1: |z| <= 3/4) are decided against the exact rational partial sum plus a geometric tail bound whose ratio condition is checked for every later index (proved: the series converges and the interval contains its sum); legendre/chebyt/chebyu at negative integer degree (P_n = P_(-n-1) by definition, Mathlib's integer-indexed Chebyshev T/U).",
+                note="Trusted base: Lean 4.33 kernel; axioms propext/Classical.choice/Quot.sound only (audited by #print axioms on every run, no native_decide/bv_decide/sorry); Mathlib v4.33; the hand-written Lean model of the code, tied to /repo's working tree on every run by a bit-exact correspondence run through the compiled model driver; bitcount/trailing/isqrt are modelled by their mathematical meaning and tied by correspondence only; the Python harness. Analytic continuation of 2F1-type series outside |z| <= 3/4, complex parameters/arguments, hyperu, Whittaker, Meijer G, Appell, legenp/legenq, spherharm, pcf* are not decided."),
     "C35": dict(category="translation_validation", technique="Lean-verified acceptance checkers for integer relations (ok => the documented promise over the reals, violates => its negation) applied to every result the real pslq/findpoly/identify return",
                 text="Theorems: pslqCheck ok implies a non-zero integer vector with max|c_k| < maxcoeff and |sum c_k x_k| <= tol*||x||_2; violates refutes it; same for findpoly with exact powers of x. identify's formulas are parsed and evaluated with the verified "
                      "interval evaluator. No claim that PSLQ finds relations (completeness is reported as information).",
